@@ -463,6 +463,16 @@ pub fn raster(sink: &mut Sink, seed: u64, thorough: bool) {
         let id = sink.id();
         sink.emit(&raster_event(id, &format!("rastersyn:{kind}"), &q, &[Call::Margin(2), Call::Shape(if kind < 3 { 0 } else { kind }), Call::FitWidth(5 * c)]));
     }
+    // very large fit requests (tens of pixels per module even at version 40): the side must be exactly the requested one
+    {
+        let q1 = qr_of(1, seed);
+        let bigs: &[(u32, bool)] = if thorough { &[(4147, true), (5001, false), (4097, true), (8195, false), (8250, true)] } else { &[(4147, true), (5001, false)] };
+        for (i, &(side, by_width)) in bigs.iter().enumerate() {
+            let m = if side == 8250 { 6 } else { i % 3 };          // 8250 = 33 cells x 250 px: integer scale, every pixel judged
+            let id = sink.id();
+            sink.emit(&raster_event(id, &format!("rasterbig:{side}"), &q1, &[Call::Margin(m), Call::Shape(0), if by_width { Call::FitWidth(side) } else { Call::FitHeight(side) }]));
+        }
+    }
     // option programs: forwarding of every Builder method, order of fit_width / fit_height
     let qr = qr_of(2, seed);
     let n = qr.size as u32;
